@@ -37,7 +37,8 @@ type FuncContract struct {
 	NoReturn     bool
 	NoPanicProps []string
 	NoFrame      bool
-	DeadReturns  map[int]bool // return sites declared unreachable under the preconditions
+	Effects      []EffectClause // static write-effect obligations (C19)
+	DeadReturns  map[int]bool   // return sites declared unreachable under the preconditions
 	SigReadProps []string
 	Where        string
 	Bounded      string
@@ -99,7 +100,7 @@ var labelRe = regexp.MustCompile(`^([a-zA-Z_][a-zA-Z0-9_.\-]*):\s+`)
 
 var clauseKeywords = map[string]bool{"func": true, "pred": true, "specfunc": true, "axiom": true, "lemma": true, "ghost": true,
 	"requires": true, "ensures": true, "assumes": true, "presumes": true, "modifies": true, "let": true, "loop": true, "trusted": true, "inline": true,
-	"noreturn": true, "assert": true, "bounded": true, "nopanic": true, "noframe": true, "sigreads": true, "deadreturn": true}
+	"noreturn": true, "assert": true, "bounded": true, "nopanic": true, "noframe": true, "sigreads": true, "deadreturn": true, "effects": true}
 
 // loadContractFile parses one contract file. pkg is the package name used to qualify
 // unqualified function keys ("" for spec files whose keys are fully qualified).
@@ -299,6 +300,12 @@ func (cs *Contracts) loadContractText(path, pkg, text string) error {
 			cur.NoFrame = true
 		case "sigreads":
 			cur.SigReadProps = props
+		case "effects":
+			f := strings.Fields(rest)
+			if len(f) == 0 {
+				return fail(fmt.Errorf("effects noglobals | nowrite <pkg>..."))
+			}
+			cur.Effects = append(cur.Effects, EffectClause{Kind: f[0], Args: f[1:], Props: props, Where: where})
 		case "deadreturn":
 			if cur.DeadReturns == nil {
 				cur.DeadReturns = map[int]bool{}
@@ -413,4 +420,11 @@ func splitCommaTop(s string) []string {
 		out = append(out, strings.TrimSpace(s[start:]))
 	}
 	return out
+}
+
+type EffectClause struct {
+	Kind  string // noglobals | nowrite
+	Args  []string
+	Props []string
+	Where string
 }
